@@ -1822,6 +1822,11 @@ where
 /// they have a form like `!A0` . They start with an exclamation mark,
 /// a capital letter indicates the type (A for Annotation), and a number
 /// corresponds to whatever was the internal handle.
+/// The largest gap (number of empty slots) a single temporary identifier in untrusted input may open up.
+/// Temporary identifiers encode handles and gaps left by deleted items are restored, but a bogus
+/// number in the input must not make us allocate an arbitrary amount of memory.
+pub(crate) const MAX_TEMP_ID_GAP: usize = 65536;
+
 pub(crate) fn resolve_temp_id(id: &str) -> Option<usize> {
     let mut iter = id.chars();
     if let Some('!') = iter.next() {
